@@ -16,7 +16,7 @@ for l in open('/verif/properties.jsonl'):
         txt=base+"\nChanges already collected for this property (produce something that works through a DIFFERENT mechanism/function than these):\n"+'\n'.join('- '+s for s in prev)+"\n"
     else:
         anchors='\n'.join('- %s: %s'%(m['name'],m['where']) for m in p['anchors'].get('mechanism',[]))
-        prev=[json.load(open(m)).get('summary','') for m in sorted(glob.glob('/var/tmp/neutralout/%s-*/meta.json'%pid))]
+        prev=[json.load(open(m)).get('summary','') for m in sorted(glob.glob('/verif/neutral/%s-*/meta.json'%pid))]
         txt=base+"\nCode the property is anchored in:\n"+anchors+"\n\nRefactorings already collected (touch DIFFERENT functions or use different transformations than these):\n"+'\n'.join('- '+s for s in prev)+"\n"
     open('%s/%s.property.txt'%(root,pid),'w').write(txt)
 PY
